@@ -46,7 +46,7 @@ def gen_program(rng):
         for _ in range(n):
             k = rng.random()
             if k < 0.45:
-                op = ["cb", rng.choice(["ret", "ret", "raise", "arity", "typeerr-noextra", "ret-noextra", "rereg", "ret-shared", "ret-shared"])]
+                op = ["cb", rng.choice(["ret", "ret", "raise", "arity", "typeerr-noextra", "ret-noextra", "rereg", "ret-shared", "ret-shared", "reads-result"])]
                 if rng.random() < 0.3:
                     op.append(rng.choice(["partial", "object", "boundmethod", "falsy-object"]))
                 out.append(op)
@@ -156,6 +156,20 @@ class FutRun(object):
             def cb(result, exception, extra):
                 record(result, exception, extra)
                 raise CallbackError(reg)
+            return cb
+        if kind == "reads-result":
+            # a callback that asks its own future for the outcome: the future is done, so result() answers at once
+            def cb(result, exception, extra):
+                try:
+                    val = run.fut.result(0)
+                    seen = ("value", val is run.obj)
+                except core.SimAbort:
+                    raise
+                except BaseException as ex:
+                    seen = ("raised", ex is run.exc)
+                want = ("value", True) if run.p["task"][0] in ("ret", "ret-exc") else ("raised", True)
+                s.emit("cb.call", reg, result is run.obj, result is None, exception is run.exc, exception is None,
+                       extra == reg and seen == want)
             return cb
         if kind == "rereg":
             # a callback that registers another callback on the same future while it runs
